@@ -1,5 +1,6 @@
 import NxProofs.RmcServer
 import NxProofs.RmcResult
+import NxProofs.RmcRequest
 /-!
 # C11 — an RMC server answers every request exactly once with the right outcome
 
@@ -22,7 +23,12 @@ which exception writing the Python value `v` at a position declared `slot` raise
 every position of every generated result type); `incompat` is the property's own relation "a position declared
 `slot` cannot hold a value of this type" (the harness's oracle, `rmc_results.incompatible`, is its twin, compared
 on every case). Containers, structures and response fields only propagate (nothing in the encoder catches).
-Statements only; proofs in `NxProofs/RmcServer.lean`, `NxProofs/RmcResult.lean`.
+Truncation BELOW the top level (`NxModel/Nex/RmcRequest.lean`, `NxProofs/RmcRequest.lean`): a request body is nested —
+structure frames `u8 version, u32 size, size bytes` per class (structure headers), anydata holders, counted lists,
+length-prefixed strings and buffers. `readRequest` models the generated `input.<type>(...)` statements over a schema
+read from the code under test; the harness's reference reader is its twin (compared on every case) and the model
+computes the `extract` outcome of every such request from the request's own body (`extractOf`).
+Statements only; proofs in `NxProofs/RmcServer.lean`, `NxProofs/RmcResult.lean`, `NxProofs/RmcRequest.lean`.
 -/
 namespace Nx.C11
 open Nx Nx.Rmc Nx.RmcServer Nx.RmcResult
@@ -165,6 +171,79 @@ theorem containers_propagate_first_failure :
       check (.map ks vs) (.dict (pre ++ kv :: post)) = some x) :=
   ⟨list_first_failure, map_first_failure⟩
 
+
+/-! ## nested framing of the request body -/
+section Framing
+open Nx.RmcRequest
+
+/-- with structure headers the fields of one class of a structure are read from the `size` bytes of its frame ONLY:
+    what follows the frame can neither supply missing fields nor be consumed by them -/
+theorem struct_frame_is_bounded (R : Hook) (env : Env) (items : Items) (ver : Nat) (hv : ver < 256) (frame rest : Bytes)
+    (h : frame.length < 4294967296) :
+    decLevel R env true items (u8 ver ++ u32le frame.length ++ frame ++ rest) =
+      match loadFrame R env ver items frame with
+      | .ok vs => .ok (vs, rest)
+      | .error e => .error e :=
+  decLevel_frame R env items ver hv frame rest h
+
+/-- a structure frame that declares (and holds) FEWER bytes than its fields need — the first `k` bytes of a frame whose
+    fields take `frame.length - left.length > k` — is an OverflowError, whatever follows the frame (later parameters,
+    trailing data): the missing fields are never taken from there -/
+theorem short_frame_rejected (env : Env) (f : Nat) (items : Items) (ver : Nat) (hv : ver < 256)
+    (frame : Bytes) (hl : frame.length < 4294967296) (vs : List RmcRequest.Val) (left : Bytes)
+    (hok : decItems (decObj env true f) env ver items frame = .ok (vs, left))
+    (k : Nat) (hk : k < frame.length - left.length) (rest : Bytes) :
+    decLevel (decObj env true f) env true items (u8 ver ++ u32le k ++ frame.take k ++ rest) = .error .overflow := by
+  have hlen : (frame.take k).length = k := by simp [List.length_take]; omega
+  have h1 := decLevel_frame (decObj env true f) env items ver hv (frame.take k) rest (by omega)
+  rw [hlen] at h1
+  rw [h1]
+  unfold loadFrame
+  rw [Local.truncated (decItems_local _ env (decObj_local env true f) ver items) hok k hk]
+
+/-- the same at the top level and at every level in between: a body that ends inside what the parameters take
+    (any proper prefix of the consumed bytes) is an OverflowError — at whatever nesting depth the cut falls -/
+theorem truncated_request_rejected (env : Env) (hdr : Bool) (tys : List Ty) (b : Bytes) (vs : List RmcRequest.Val) (r : Bytes)
+    (h : decArgs (decObj env hdr fuel) env tys b = .ok (vs, r)) (k : Nat) (hk : k < b.length - r.length) :
+    readRequest env hdr tys (b.take k) = .error .overflow ∧ extractOf env hdr tys (b.take k) = some .other := by
+  have := Local.truncated (decArgs_local _ env (decObj_local env hdr fuel) tys) h k hk
+  simp [readRequest, extractOf, this, excOf]
+
+/-- every reader of the model consumes a prefix of its input, is independent of what follows that prefix and fails with
+    OverflowError on every proper prefix of it (the lemma behind the two theorems above) -/
+theorem readers_are_local (env : Env) (hdr : Bool) (f : Nat) :
+    (∀ t, Local (decTy (decObj env hdr f) env t)) ∧ (∀ ver it, Local (decItems (decObj env hdr f) env ver it)) ∧
+    (∀ id, Local (decObj env hdr f id)) ∧ (∀ ts, Local (decArgs (decObj env hdr f) env ts)) :=
+  ⟨decTy_local _ env (decObj_local env hdr f), decItems_local _ env (decObj_local env hdr f),
+   decObj_local env hdr f, decArgs_local _ env (decObj_local env hdr f)⟩
+
+/-- a request whose parameters cannot be read — at any nesting level: the reader's exception `e` — is answered with exactly
+    one error response carrying the PythonCore code of `e` and the request's protocol and call id, and NO user method is
+    invoked, whatever the user's methods would have done -/
+theorem unreadable_request_answered_with_error (servers : Registry) (req : Msg) (m : Nat) (w : ReqWF req m)
+    (hp : regLookup req.protocol servers = some false)
+    (srv : Server) (mid : Nat) (mt : Method) (hf : findMethod mid srv.methods = some mt) (hs : mt.supported = true)
+    (env : Env) (hdr : Bool) (tys : List Ty) (e : Err) (he : readRequest env hdr tys req.body = .error e) (u : User) :
+    invoked srv mid (extractOf env hdr tys req.body) = none ∧
+    react servers req (generatedHandle srv mid (extractOf env hdr tys req.body) u)
+      = .sends (specEncode (.failure req.protocol req.callId (errCode e))) := by
+  have hx : extractOf env hdr tys req.body = some (excOf e) := by simp [extractOf, he]
+  rw [hx, gen_extract_fails srv mid (excOf e) u mt hf hs]
+  refine ⟨by simp [invoked, hf], ?_⟩
+  obtain ⟨ht, hi, _, hk, ho⟩ := react_py (servers := servers) w hp
+  cases e <;> simp only [excOf, errCode] <;> assumption
+
+/-- and a request whose parameters can be read reaches the user method with its own id (supported method) -/
+theorem readable_request_reaches_handler (srv : Server) (mid : Nat) (mt : Method)
+    (hf : findMethod mid srv.methods = some mt) (hs : mt.supported = true)
+    (env : Env) (hdr : Bool) (tys : List Ty) (body : Bytes) (vs : List RmcRequest.Val)
+    (h : readRequest env hdr tys body = .ok vs) : invoked srv mid (extractOf env hdr tys body) = some mid := by
+  have hx : extractOf env hdr tys body = none := by simp [extractOf, h]
+  have := (findMethod_some hf).2
+  simp [hx, invoked, hf, hs, this]
+
+end Framing
+
 /-- with distinct method ids (generated obligation `method_ids_distinct`) every table entry is reachable
     under its own id, and a lookup only ever yields an entry with the requested id -/
 theorem dispatch_reaches_every_method (srv : Server) (hd : srv.methodIdsDistinct = true) (mt : Method)
@@ -249,5 +328,28 @@ example : serve [(10, false)]
     [({ mode := 0, protocol := 10, method := some 2, callId := 1, error := -1, body := [] }, .raised .typeError),
      ({ mode := 0, protocol := 11, method := some 2, callId := 2, error := -1, body := [] }, .returned [])]
     = [.sends [10, 0, 0, 0, 10, 0, 2, 0, 4, 0x80, 1, 0, 0, 0], .sends [10, 0, 0, 0, 11, 0, 2, 0, 1, 0x80, 2, 0, 0, 0]] := by decide
+
+/-! nested framing, on the layout of DataStore `get_rating(target : DataStoreRatingTarget {u64 data_id, s8 slot}, u64 password)` -/
+section FramingExamples
+open Nx.RmcRequest
+def exEnv : Env := { structs := [(1, [.field .u64 (.field .s8 .nil)])], registry := [] }
+def exTarget : Bytes := [0xE8, 3, 0, 0, 0, 0, 0, 0, 3]
+def exPassword : Bytes := [0x88, 0x77, 0x66, 0x55, 0x44, 0x33, 0x22, 0x11]
+/-- well-formed -/
+example : readRequest exEnv true [.struct 1, .u64] (u8 0 ++ u32le 9 ++ exTarget ++ exPassword)
+    = .ok [.obj [.int 1000, .int 3], .int 0x1122334455667788] := by rfl
+/-- the frame cut to 4 of its 9 bytes, the password following: unreadable, although 13 bytes follow the header -/
+example : readRequest exEnv true [.struct 1, .u64] (u8 0 ++ u32le 4 ++ exTarget.take 4 ++ exPassword) = .error .overflow := by rfl
+/-- the frame declaring 8 bytes, all 9 kept -/
+example : readRequest exEnv true [.struct 1, .u64] (u8 0 ++ u32le 8 ++ exTarget ++ exPassword) = .error .overflow := by rfl
+/-- a longer frame (newer structure version): surplus inside the frame is skipped -/
+example : readRequest exEnv true [.struct 1, .u64] (u8 1 ++ u32le 11 ++ exTarget ++ [0xAA, 0xBB] ++ exPassword)
+    = .ok [.obj [.int 1000, .int 3], .int 0x1122334455667788] := by rfl
+/-- hypotheses of `short_frame_rejected` at a non-trivial point -/
+example : decItems (decObj exEnv true 3) exEnv 0 (.field .u64 (.field .s8 .nil)) exTarget = .ok ([.int 1000, .int 3], []) := by rfl
+example : extractOf exEnv true [.struct 1, .u64] (u8 0 ++ u32le 4 ++ exTarget.take 4 ++ exPassword) = some .other := by rfl
+/-- an unregistered holder name is a KeyError -/
+example : extractOf exEnv true [.anydata] ([2, 0, 65, 0] ++ u32le 4 ++ u32le 0) = some .keyError := by rfl
+end FramingExamples
 
 end Nx.C11
